@@ -132,3 +132,12 @@ def drop3(rng, frames, **over):
     p["settle_ms"] = p["cfg"]["timeout"] + 2500
     p["max_ms"] = 90000
     return p
+
+
+def misuse(rng, frames, **over):
+    """Otherwise valid runs with API misuse calls inserted at random points (C16)."""
+    p = general(rng, frames, spectators=rng.choice([0, 1]), **over)
+    p["p_misuse"] = rng.choice([0.05, 0.2])
+    p["cfg"]["inputs_by_frame"] = 4
+    p["loss"] = rng.choice([0.0, 0.1])
+    return p
